@@ -57,6 +57,9 @@ def head(parts, n=120):
     return s[:n]
 
 
+ENV_SIZES = (4, 5, 6, 8, 12, 16)      # environment variables B<k> hold 2^k bytes
+
+
 class C02:
     id = "C02"
     level = "exploration"
@@ -87,6 +90,8 @@ class C02:
         s = Script()
         emit_schema(s, 0, schema)
         s.add("cwd", hx(fx))
+        for k in ENV_SIZES:
+            s.add("env", hx("B%d" % k), "r%d*%s" % (2 ** k, "b".encode().hex()))
         if case.get("noerr"):
             s.add("init", 1, 0, flags, "noerr")      # no error function: diagnostics go to stderr, never to stdout
         else:
@@ -190,6 +195,9 @@ class C02:
             add("tok-newlines-2e%d" % k, [X("i ="), R(n, "\n"), X("1")])
             add("tok-escapes-2e%d" % k, [X("s = \""), R(n, "\\x41\\101\\n"), X("\"")])
             add("tok-cont-2e%d" % k, [X("s = \""), R(n, "\\\n"), X("\"")])
+        for k in ENV_SIZES:
+            add("tok-env-set-2e%d" % k, [X("s = \"x${B%d}y\"" % k)])
+            add("tok-env-set-bare-2e%d" % k, [X("s = ${B%d}${B%d}" % (k, k))])
         unterminated = ["\"abc", "'abc", "/* abc", "${abc", "s = \"abc\\", "s = 'abc\\", "\\", "fn(", "fn(a", "fn(a,",
                         "il = {", "il = {1,", "il = {1", "tm a {", "tm a", "tm", "i =", "i", "i +=", "il +=", "single {",
                         "single { x =", "kv { k =", "s = \"a${", "s = \"${X", "s = ${X:-", "p =", "pl = {a,", "/*", "/", "//",
